@@ -205,6 +205,7 @@ def tree_validate(doc: Doc, root: Any, leafkey: str) -> Dict[str, int]:
     with Limits = [least, greatest] key below it; leaves sorted strictly
     ascending; Kids are indirect references; intermediate nodes have Kids only."""
     stats = {"nodes": 0, "leaves": 0, "depth": 0, "maxfan": 0, "entries": 0, "direct_kids": 0, "limit_elem_refs": 0}
+    leaf_depths: set = set()
 
     def walk(node: Any, is_root: bool, depth: int) -> Tuple[Any, Any]:
         d = deref(doc, node)
@@ -232,6 +233,7 @@ def tree_validate(doc: Doc, root: Any, leafkey: str) -> Dict[str, int]:
                 if not a < b:
                     raise TreeError("leaf keys not strictly ascending")
             stats["leaves"] += 1
+            leaf_depths.add(depth)
             stats["entries"] += len(keys)
             lo, hi = (keys[0], keys[-1]) if keys else (None, None)
         else:
@@ -264,6 +266,7 @@ def tree_validate(doc: Doc, root: Any, leafkey: str) -> Dict[str, int]:
         return lo, hi
 
     walk(root, True, 1)
+    stats["leaf_depth_levels"] = len(leaf_depths)      # > 1: unbalanced, leaves at different depths
     return stats
 
 
